@@ -53,7 +53,7 @@ def main(argv):
             for t, why in bad:
                 broken.append(("axioms", t, str(why)))
             if tier == "thorough" and os.environ.get("VERIF_LEANCHECKER", "1") == "1":
-                ok, out = common.leanchecker([f"Props.{prop}"])
+                ok, out = common.leanchecker(common.prop_modules(prop))
                 ctx.extra["leanchecker"] = "ok" if ok else out
                 if not ok:
                     broken.append(("leanchecker", f"Props.{prop}", out))
